@@ -132,12 +132,22 @@ struct PathRun<'a> {
     nm: &'a Naming,
     us_exprs: &'a [RecExpr<T>],
     pool_exprs: &'a [RecExpr<T>],
+    /// terms are converted (and the lazy slot name parsed) only when they are used
+    lazy: bool,
     mode: &'a str,
     findings: Vec<Finding>,
     stats: Stats,
 }
 
 impl<'a> PathRun<'a> {
+    fn pool_expr(&self, t: usize) -> RecExpr<T> {
+        if self.lazy {
+            to_recexpr::<T>(&self.ctx.uni.terms[t - 1], self.nm).unwrap()
+        } else {
+            self.pool_exprs[t - 1].clone()
+        }
+    }
+
     fn finding(
         &mut self,
         prop: &str,
@@ -183,7 +193,7 @@ impl<'a> PathRun<'a> {
             let mut base = ctx.uni.base.clone();
             if path.first().map(|p| p.1).unwrap_or(false) { base.reverse(); }
             for t in base {
-                let ex = self.pool_exprs[t - 1].clone();
+                let ex = self.pool_expr(t);
                 match guard(|| eg.add_expr(ex)) {
                     Ok(h) => handles.push((ctx.pool_ui[t - 1], h)),
                     Err(p) => {
@@ -201,7 +211,7 @@ impl<'a> PathRun<'a> {
                 let (a, b) = ctx.uni.eqs[*e - 1];
                 let (a, b) = if *flip { (b, a) } else { (a, b) };
                 for t in [a, b] {
-                    let ex = self.pool_exprs[t - 1].clone();
+                    let ex = self.pool_expr(t);
                     match guard(|| eg.add_expr(ex)) {
                         Ok(h) => handles.push((ctx.pool_ui[t - 1], h)),
                         Err(p) => {
@@ -222,8 +232,8 @@ impl<'a> PathRun<'a> {
             let (a, b) = if *flip { (b, a) } else { (a, b) };
             key.push(*e);
             key.sort();
-            let ea = self.pool_exprs[a - 1].clone();
-            let eb = self.pool_exprs[b - 1].clone();
+            let ea = self.pool_expr(a);
+            let eb = self.pool_expr(b);
             let r = guard(|| {
                 let ia = eg.add_expr(ea);
                 let ib = eg.add_expr(eb);
@@ -277,7 +287,13 @@ impl<'a> PathRun<'a> {
                 }
             }
 
-            let us_exprs = self.us_exprs;
+            let us_exprs_owned: Vec<RecExpr<T>>;
+            let us_exprs: &[RecExpr<T>] = if self.lazy {
+                us_exprs_owned = self.ctx.us.iter().map(|t| to_recexpr::<T>(t, self.nm).unwrap()).collect();
+                &us_exprs_owned
+            } else {
+                self.us_exprs
+            };
             let obs = match guard(|| observe(&eg, us_exprs)) {
                 Ok(o) => o,
                 Err(p) => {
@@ -706,7 +722,7 @@ impl<'a> PathRun<'a> {
             let Some(found) = obs.found[i].clone() else { continue };
             self.stats.readds += 1;
             let before = (progress_of(eg), eg.total_number_of_nodes());
-            let ex = self.us_exprs[i].clone();
+            let ex = if self.lazy { to_recexpr::<T>(&self.ctx.us[i], self.nm).unwrap() } else { self.us_exprs[i].clone() };
             let r = guard(|| {
                 let h = eg.add_expr(ex);
                 let same = eg.eq(&h, &found);
@@ -849,7 +865,11 @@ fn main() {
                                 count += 1;
                                 let path: Vec<(usize, bool)> =
                                     ord.iter().enumerate().map(|(p, o)| (key2[*o], (flips >> p) & 1 == 1)).collect();
-                                let mut pr = PathRun { ctx: &ctx2, nm: &nm, us_exprs: &us_exprs, pool_exprs: &pool_exprs, mode, findings: Vec::new(), stats: Stats::default() };
+                                // "fresh-lazy": a new naming per path, its `$f<next>` name is parsed
+                                // when the first term that mentions it is inserted
+                                let lazy = kind == "fresh-lazy";
+                                let nm_path = if lazy { Naming::new(&kind, ctx2.uni.n) } else { nm.clone() };
+                                let mut pr = PathRun { ctx: &ctx2, nm: &nm_path, us_exprs: &us_exprs, pool_exprs: &pool_exprs, lazy, mode, findings: Vec::new(), stats: Stats::default() };
                                 let fp = if count % 2 == 0 { pr.run::<()>(&path) } else { pr.run::<SizeDepth>(&path) };
                                 stats.paths += pr.stats.paths;
                                 stats.steps += pr.stats.steps;
